@@ -50,6 +50,39 @@ def norm_exc(e: BaseException):
     return [type(e).__name__, msg]
 
 
+_AST_CACHE = {}
+
+
+def deliberate(e: BaseException) -> bool:
+    """True if `e` was raised by a `raise` statement (somebody decided to report this), False if
+    it escaped from an operation that happened to fail (`next()` on an empty iterator, a missing
+    key, a constructor called with the wrong arguments...)."""
+    import ast
+    import linecache
+
+    tb = e.__traceback__
+    if tb is None:
+        return False
+    while tb.tb_next is not None:
+        tb = tb.tb_next
+    fname, lineno = tb.tb_frame.f_code.co_filename, tb.tb_lineno
+    if fname not in _AST_CACHE:
+        try:
+            src = "".join(linecache.getlines(fname))
+            _AST_CACHE[fname] = ast.parse(src) if src else None
+        except (SyntaxError, ValueError):
+            _AST_CACHE[fname] = None
+    tree = _AST_CACHE[fname]
+    if tree is None:
+        return False
+    best = None
+    for node in ast.walk(tree):
+        if isinstance(node, ast.stmt) and node.lineno <= lineno <= getattr(node, "end_lineno", node.lineno):
+            if best is None or (node.end_lineno - node.lineno) <= (best.end_lineno - best.lineno):
+                best = node
+    return isinstance(best, ast.Raise)
+
+
 def is_circular_msg(exc):
     return exc is not None and "circular dependency" in exc[1]
 
